@@ -30,7 +30,7 @@ POISON = -777
 
 def budget(tier):
     if tier == 'quick':
-        return dict(n=1500, wall=70, dup=40)
+        return dict(n=2400, wall=75, dup=40)
     return dict(n=40000, wall=1500, dup=200)
 
 
